@@ -187,3 +187,33 @@ func HarnessC15() {
 	verifObserve("out", o1)
 	verifAssert(o1 == o2, "marked/option-controlled source renders differently from the hand-stripped source")
 }
+
+// spaceless: removes exactly the whitespace runs that lie between two HTML tags
+// of its rendered body (decided through the engine's regexp model; the pattern
+// is read from the real code). Document: T W1 T W2 x W3 T W4 T W5 with T simple
+// tags, x text, Wi whitespace runs drawn from {space, tab, LF, CR}.
+func c15Run(max int) string {
+	n := verifChoice(max + 1)
+	b := make([]byte, n)
+	for i := range b {
+		b[i] = []byte{' ', '\n', '\t', '\r'}[verifChoice(4)]
+	}
+	return string(b)
+}
+
+func HarnessC15Spaceless() {
+	m := verifParam("w", 1)
+	w1, w2, w3, w4, w5 := c15Run(m), c15Run(m), c15Run(m), c15Run(m), c15Run(m)
+	t := c09LetterByte() // a symbolic letter inside the tags and as text
+	ts := string([]byte{t})
+	body := "<" + ts + ">" + w1 + "<b>" + w2 + ts + w3 + "</b>" + w4 + "</" + ts + ">" + w5
+	verifObserve("body", body)
+	out, ok := render("{% autoescape off %}{% spaceless %}{{ body }}{% endspaceless %}{% endautoescape %}|{% spaceless %}"+w2+"a"+w3+"{% endspaceless %}", Context{"body": body})
+	verifAssert(ok, "spaceless must render")
+	// between two tags: removed (w1, w4); between a tag and text, or after the last tag: kept (w2, w3, w5)
+	want := "<" + ts + "><b>" + w2 + ts + w3 + "</b></" + ts + ">" + w5 + "|" + w2 + "a" + w3
+	verifObserve("out", out)
+	verifAssert(out == want, "spaceless must remove exactly the whitespace runs between two HTML tags")
+}
+
+func c09LetterByte() byte { return verifByte()&0x0f | 0x61 } // 'a'..'o'
